@@ -85,6 +85,18 @@ CHECKS = {
             "Rosenbrock tables are taken from the method names (the source only states err_order). Open known finding: "
             "dirk34 tableau (matched by the exact residual fingerprint).",
             "DESIGN.md section 2, C12"),
+    "C15": ("exploration",
+            "exhaustive itertools enumeration of all small per-level patterns (1-3 levels of 2x2/2x3/3x3 blocks, 4-6 levels "
+            "of 1x2/2x1 blocks) + Hypothesis-generated structures with 1-6 levels; oracle = dense Kronecker definition "
+            "(numpy.kron)",
+            "nonzero() order, lower_tri, per-row and per-column queries, dot (vector/multi-column, strided and integer "
+            "arguments), asmatrix, level reordering (perfect-shuffle similarity), transpose, join, slice, from_kvs / "
+            "compute_sparsity_ij against reference support overlaps (different degrees, repeated knots, nested and "
+            "unrelated meshes), kron_partial against selected rows of the dense product, and all index maps as mutually "
+            "inverse bijections are compared with the dense definition; native kernels run crash-isolated. Exhaustive "
+            "for the stated small families, sampling beyond.",
+            "Trusted: numpy.kron dense reference (vp/ref/c15_ml.py). Data are small dyadic rationals (exact comparison).",
+            "DESIGN.md section 2, C15"),
     "C16": ("exploration",
             "Hypothesis-generated operands (dense/CSR/CSC/LinearOperator, rectangular, mixed dtypes/layouts) and arguments; "
             "oracle = explicit dense matrices built with numpy.kron / numpy.block / numpy.linalg.solve",
